@@ -136,6 +136,21 @@ func Recs(r *rand.Rand, n int, seqLen func() int) []itx.Rec {
 	return out
 }
 
+// hostileNotes: text attribute values that a JSON writer has to escape (or must not "unescape").
+var hostileNotes = []string{"C:\\users\\bob", "a\x01b", "tab\there", `back\\slash "quoted"`, "<b>&amp;</b>", "line\u2028separator", `literal \u00e9 escape`, "\u00e9t\u00e9", "\\u", "x\x1fy\x7f"}
+
+// NoteOf: the "note" attribute of the record of that identifier (one record in three has one).
+func NoteOf(id string) (string, bool) {
+	h := 0
+	for _, c := range id {
+		h = h*31 + int(c)
+	}
+	if h%3 != 0 {
+		return "", false
+	}
+	return hostileNotes[(h/3)%len(hostileNotes)], true
+}
+
 // Bios builds the real batches (with qualities when withQual).
 func Bios(parts [][]itx.Rec, withQual bool) []obiseq.BioSequenceSlice {
 	out := make([]obiseq.BioSequenceSlice, len(parts))
@@ -143,6 +158,9 @@ func Bios(parts [][]itx.Rec, withQual bool) []obiseq.BioSequenceSlice {
 		out[i] = obiseq.MakeBioSequenceSlice(0)
 		for _, r := range p {
 			s := r.Bio()
+			if note, ok := NoteOf(r.ID); ok {
+				s.SetAttribute("note", note)
+			}
 			if withQual {
 				q := make([]byte, len(r.Seq))
 				for j := range q {
